@@ -16,10 +16,11 @@ CONSTANTS
   Ring <- MCRing
   Patterns = {"p1", "p2", "p3"}
   Paths = {"/x", "/y"}
+  Addrs = {"in-1", "out"}
   CacheSize = 2
   MaxOps = %d
   FineGrain = %s
-INVARIANTS ExactShare OwnLocation CacheBounded
+INVARIANTS ExactShare OwnLocation OwnDecision CacheBounded
 CHECK_DEADLOCK FALSE
 """
 
